@@ -71,14 +71,14 @@ func c03Accept(sc int) bool {
 
 // ---- model chain (engine)
 
-func c03ModelChain(sc int, A, E *c03Ident) [][]byte {
+func c03ModelChain(sc int, A, E *c03Ident, junkVal []byte) (chain [][]byte, prior [][]byte) {
 	ck := &rt.ModelCertKey{ID: []byte{0xC1}}
 	ck2 := &rt.ModelCertKey{ID: []byte{0xC2}}
 	good, err := GenerateSignedExtension(A.priv, ck)
 	rt.Assert("extension", err == nil)
 	cert := &x509.Certificate{PublicKey: ck}
 	self := true
-	junk := pkix.Extension{Id: extensionID, Value: rt.Bytes("junkext", 12, 12)}
+	junk := pkix.Extension{Id: extensionID, Value: junkVal}
 	other := pkix.Extension{Id: c03OtherOID, Value: []byte{1}}
 	switch sc {
 	case c03Valid:
@@ -99,6 +99,10 @@ func c03ModelChain(sc int, A, E *c03Ident) [][]byte {
 		wrong, err := GenerateSignedExtension(A.priv, ck2)
 		rt.Assert("extension over another key", err == nil)
 		cert.Extensions = []pkix.Extension{wrong}
+		// the honest certificate this binding was copied from (its owner may have connected before)
+		rawH := []byte{0x30, 9}
+		rt.RegisterCert(rawH, &x509.Certificate{PublicKey: ck2, Extensions: []pkix.Extension{wrong}}, true, false)
+		prior = [][]byte{rawH}
 	case c03SigByOtherIdentity:
 		// names A's public key but carries E's signature
 		pa, _ := crypto.MarshalPublicKey(A.pub)
@@ -127,11 +131,11 @@ func c03ModelChain(sc int, A, E *c03Ident) [][]byte {
 	case c03TwoCerts:
 		raw2 := []byte{0x30, 2}
 		rt.RegisterCert(raw2, &x509.Certificate{PublicKey: ck2, Extensions: []pkix.Extension{good}}, true, false)
-		return [][]byte{raw, raw2}
+		return [][]byte{raw, raw2}, prior
 	case c03NoCerts:
-		return nil
+		return nil, prior
 	}
-	return [][]byte{raw}
+	return [][]byte{raw}, prior
 }
 
 // ---- real chain (native replay)
@@ -146,7 +150,7 @@ func c03RealCert(exts []pkix.Extension, certKey, signKey *ecdsa.PrivateKey) []by
 	return der
 }
 
-func c03RealChain(sc int, A, E *c03Ident) [][]byte {
+func c03RealChain(sc int, A, E *c03Ident) (chain [][]byte, prior [][]byte) {
 	ck, _ := ecdsa.GenerateKey(elliptic.P256(), rand.Reader)
 	ck2, _ := ecdsa.GenerateKey(elliptic.P256(), rand.Reader)
 	good, _ := GenerateSignedExtension(A.priv, ck.Public())
@@ -154,41 +158,41 @@ func c03RealChain(sc int, A, E *c03Ident) [][]byte {
 	other := pkix.Extension{Id: c03OtherOID, Value: []byte{1}}
 	switch sc {
 	case c03Valid:
-		return [][]byte{c03RealCert([]pkix.Extension{other, good}, ck, ck)}
+		return [][]byte{c03RealCert([]pkix.Extension{other, good}, ck, ck)}, nil
 	case c03NoKeyExt:
-		return [][]byte{c03RealCert([]pkix.Extension{other}, ck, ck)}
+		return [][]byte{c03RealCert([]pkix.Extension{other}, ck, ck)}, nil
 	case c03TwoKeyExtFirstValid, c03TwoKeyExtFirstJunk:
 		// x509.CreateCertificate refuses duplicate extension ids: not expressible with real certificates
-		return nil
+		return nil, nil
 	case c03JunkExt:
-		return [][]byte{c03RealCert([]pkix.Extension{junk}, ck, ck)}
+		return [][]byte{c03RealCert([]pkix.Extension{junk}, ck, ck)}, nil
 	case c03SigOverOtherCertKey:
 		wrong, _ := GenerateSignedExtension(A.priv, ck2.Public())
-		return [][]byte{c03RealCert([]pkix.Extension{wrong}, ck, ck)}
+		return [][]byte{c03RealCert([]pkix.Extension{wrong}, ck, ck)}, [][]byte{c03RealCert([]pkix.Extension{wrong}, ck2, ck2)}
 	case c03SigByOtherIdentity:
 		pa, _ := crypto.MarshalPublicKey(A.pub)
 		body, _ := x509.MarshalPKIXPublicKey(ck.Public())
 		sig, _ := E.priv.Sign(append([]byte(certificatePrefix), body...))
 		v, _ := asn1.Marshal(signedKey{PubKey: pa, Signature: sig})
-		return [][]byte{c03RealCert([]pkix.Extension{{Id: extensionID, Value: v}}, ck, ck)}
+		return [][]byte{c03RealCert([]pkix.Extension{{Id: extensionID, Value: v}}, ck, ck)}, nil
 	case c03NotSelfSigned:
-		return [][]byte{c03RealCert([]pkix.Extension{good}, ck, ck2)}
+		return [][]byte{c03RealCert([]pkix.Extension{good}, ck, ck2)}, nil
 	case c03TwoCerts:
-		return [][]byte{c03RealCert([]pkix.Extension{good}, ck, ck), c03RealCert([]pkix.Extension{good}, ck, ck)}
+		return [][]byte{c03RealCert([]pkix.Extension{good}, ck, ck), c03RealCert([]pkix.Extension{good}, ck, ck)}, nil
 	case c03NoCerts:
-		return [][]byte{}
+		return [][]byte{}, nil
 	case c03CriticalKeyExt:
 		g := good
 		g.Critical = true
-		return [][]byte{c03RealCert([]pkix.Extension{g}, ck, ck)}
+		return [][]byte{c03RealCert([]pkix.Extension{g}, ck, ck)}, nil
 	case c03OtherCriticalExt:
 		o := other
 		o.Critical = true
-		return [][]byte{c03RealCert([]pkix.Extension{o, good}, ck, ck)}
+		return [][]byte{c03RealCert([]pkix.Extension{o, good}, ck, ck)}, nil
 	case c03Unparsable:
-		return [][]byte{{0x30, 0x01, 0x00}}
+		return [][]byte{{0x30, 0x01, 0x00}}, nil
 	}
-	return nil
+	return nil, nil
 }
 
 // VerifC03Handshake: the certificate check installed by ConfigForPeer accepts a presented chain exactly
@@ -203,22 +207,35 @@ func VerifC03Handshake() {
 	rt.Assume(rt.Not(rt.BytesEq(rawA, rawE)))
 	sc := rt.Choose("chain", c03NScenarios)
 	var expected peer.ID
-	switch rt.Choose("expected", 3) {
+	switch rt.Choose("expected", 5) {
 	case 1:
 		expected = A.id
 	case 2:
 		expected = E.id
+	case 3: // a well-formed id that does not embed a key (a hashed multihash)
+		expected = peer.ID(append([]byte{0x12, 0x20}, make([]byte, 32)...))
+	case 4: // an identity multihash around something that is not a key
+		expected = peer.ID([]byte{0x00, 0x03, 0x01, 0x02, 0x03})
 	}
-	var raw [][]byte
+	// inputs are drawn in the same order in both modes so that a counterexample replays
+	junkVal := rt.Bytes("junkext", 12, 12)
+	var raw, prior [][]byte
 	if rt.Symbolic() {
-		raw = c03ModelChain(sc, A, E)
+		raw, prior = c03ModelChain(sc, A, E, junkVal)
 	} else {
-		raw = c03RealChain(sc, A, E)
+		raw, prior = c03RealChain(sc, A, E)
 		if raw == nil && sc != c03NoCerts {
 			return
 		}
 	}
 	ident := &Identity{config: tls.Config{MinVersion: tls.VersionTLS13}}
+	if prior != nil && rt.Choose("ownerConnectedBefore", 2) == 1 {
+		// the owner of the copied binding completed a handshake earlier in this process
+		pconf, pkeyCh := ident.ConfigForPeer("")
+		perr := pconf.VerifyPeerCertificate(prior, nil)
+		rt.Assert("the honest owner of the binding is accepted", perr == nil)
+		<-pkeyCh
+	}
 	conf, keyCh := ident.ConfigForPeer(expected)
 	err := conf.VerifyPeerCertificate(raw, nil)
 	var got crypto.PubKey
@@ -257,7 +274,7 @@ func VerifC03Chain() {
 	if sc == c03Unparsable {
 		return
 	}
-	raw := c03ModelChain(sc, A, E)
+	raw, _ := c03ModelChain(sc, A, E, rt.Bytes("junkext", 12, 12))
 	var chain []*x509.Certificate
 	for _, r := range raw {
 		c, err := x509.ParseCertificate(r)
